@@ -150,6 +150,11 @@ func (b *BFT) CheckProposerMessage(x *Message, p *validateMessageParams) (isPart
 		}
 	} else {
 		// in PRECOMMIT or COMMIT phase
+		// the certificate must be the vote quorum of this very view: a certificate from an older round
+		// (or another phase) for the same block must not be adopted as the lock / commit justification
+		if !justifiesLeaderPhase(x.Qc.Header, x.Header) {
+			return false, lib.ErrWrongPhase()
+		}
 		if p.blockHash == nil || p.resultsHash == nil {
 			return false, lib.ErrNoSavedBlockOrResults()
 		}
@@ -162,6 +167,13 @@ func (b *BFT) CheckProposerMessage(x *Message, p *validateMessageParams) (isPart
 		}
 	}
 	return
+}
+
+// justifiesLeaderPhase() reports whether a certificate header is the vote-phase quorum that directly
+// precedes the leader message header: same height, same round, and the phase right before it
+// (PROPOSE_VOTE for PRECOMMIT, PRECOMMIT_VOTE for COMMIT)
+func justifiesLeaderPhase(qc, hdr *lib.View) bool {
+	return qc.Height == hdr.Height && qc.Round == hdr.Round && qc.Phase+1 == hdr.Phase
 }
 
 // CheckReplicaMessage() validates an inbound message from a Replica Validator
